@@ -63,6 +63,7 @@ func (s *streamWS) SendMsg(v interface{}) error {
 
 	cur := reply.ProtoReflect()
 	for _, fd := range s.method.resp {
+		fd = ownField(cur, fd)
 		cur = cur.Mutable(fd).Message()
 	}
 	msg := cur.Interface()
@@ -86,6 +87,7 @@ func (s *streamWS) RecvMsg(m interface{}) error {
 	if s.method.hasBody {
 		cur := args.ProtoReflect()
 		for _, fd := range s.method.body {
+			fd = ownField(cur, fd)
 			cur = cur.Mutable(fd).Message()
 		}
 
